@@ -517,7 +517,22 @@ func (d *drv) recFile(sb *sandbox, counters map[string]int, g, username, ext str
 		t.Fail("C19", "harness", err.Error())
 		return
 	}
+	existing := map[string]bool{}
+	if es, err := os.ReadDir(dir); err == nil {
+		for _, e := range es {
+			existing[e.Name()] = true
+		}
+	}
 	name, err := diskwriter.VerifPathsOpenDiskFile(dir, username, ext)
+	if err == nil {
+		// C20: every recording gets a file of its own - also two recordings of one
+		// user that start within the same millisecond (the name carries a counter
+		// then): never the file of a recording that exists
+		t.Checked("C20.recording_file_is_new")
+		if existing[filepath.Base(name)] {
+			t.Fail("C20", "recording_file_is_new", fmt.Sprintf("the recording of %q was opened on %q, which already existed: two recordings share (and truncate) one file", username, name))
+		}
+	}
 	if err != nil {
 		t.Note("recfile-error")
 		t.Checked("C19.rec_file")
